@@ -67,6 +67,12 @@ def cases(rng, tier):
     paths = ["shader.wgsl", "dir/sub dir/shader.wgsl", "a\"b.wgsl", "back\\slash.wgsl", "{brace}.wgsl", "unié\U0001F600.wgsl",
              "tab\there.wgsl", "new\nline.wgsl", "nul\x00.wgsl", "nul\x007.wgsl", "quote'.wgsl", "../up/one.wgsl", "cr\rlf.wgsl",
              "‮rtl.wgsl", "", "env!(\"OUT_DIR\")", "concat!(\"a\", \"/b.wgsl\")", "concat!()", "include_str!(\"x\")", "r#\"raw\"#"]
+    # include paths that name files which EXIST (relative to the working directory of the check, or absolute) with other
+    # contents, also with validation on: the path is only ever copied into include_str!
+    for i, p in enumerate(["DESIGN.md", "/verif/MANIFEST.json", "check", "coq/_CoqProject"]):
+        base = W.random_program(rng).render()
+        out.append({"wgsl": base, "family": "include_path", "opts": {"rustfmt": False, "validate": True}, "include": p, "want_lit": True})
+        out.append({"wgsl": base, "family": "include_twin_embedded", "opts": {"rustfmt": False, "validate": True}, "include": None})
     for i, p in enumerate(paths):
         base = W.random_program(rng).render()
         out.append({"wgsl": base, "family": "include_path", "opts": {"rustfmt": i % 3 == 0}, "include": p, "want_lit": True})
